@@ -2,6 +2,7 @@ package sim
 
 import (
 	"fmt"
+	"runtime/debug"
 	"strings"
 	"testing"
 	"testing/synctest"
@@ -55,6 +56,8 @@ func (r *Report) Class() string {
 // bubble runs f inside a fresh synctest bubble and converts panics into an
 // error (harness trouble; executor panics are recovered inside execOp).
 func bubble(t *testing.T, f func()) (err error) {
+	tickProgress()
+	defer tickProgress()
 	defer func() {
 		if r := recover(); r != nil && err == nil {
 			// (When f itself failed, parked task goroutines remain and
@@ -77,7 +80,7 @@ func toErr(r any) error {
 	if e, ok := r.(*HarnessError); ok {
 		return e
 	}
-	return harnessf("panic: %v", r)
+	return harnessf("panic: %v\n%s", r, panicStack())
 }
 
 type opRef struct{ task, op int }
@@ -258,6 +261,14 @@ func RunScenario(t *testing.T, sc *Scenario, keepLog bool) (*Report, error) {
 				add("C19.value", r, "%s: in simulation: %s; alone: %s", describe(r), got.Brief(), a.Brief())
 			}
 		}
+		for _, r := range all {
+			for _, o := range []*Outcome{run.outcomes[r.task][r.op], refA[r]} {
+				if o != nil && o.Identity != "" {
+					add("C19.value", r, "%s: the result depends on the identity or history of the document object, not on its value: %s", describe(r), o.Identity)
+					break
+				}
+			}
+		}
 		for _, c := range run.changed {
 			add("C19.value", opRef{c.task, c.op}, "%s: the returned value changed after the call returned (it shares storage with the document or with a later call): at return %s, at the end of the scenario %s",
 				describe(opRef{c.task, c.op}), c.before, c.after)
@@ -359,4 +370,20 @@ func (w *world) checkImmutable(rep *Report, clause string) {
 				Detail: fmt.Sprintf("path %d changed: before %s after %s", i, w.pathSnap[i], now)})
 		}
 	}
+}
+
+// panicStack returns the frames of the panicking goroutine that lie in the
+// simulator or the library (for harness trouble reports).
+func panicStack() string {
+	var keep []string
+	lines := strings.Split(string(debug.Stack()), "\n")
+	for i := 0; i+1 < len(lines); i++ {
+		if strings.HasPrefix(lines[i], "verif/sim.") || strings.HasPrefix(lines[i], "github.com/theory/sqljson/") {
+			keep = append(keep, strings.TrimSpace(lines[i])+" "+strings.TrimSpace(lines[i+1]))
+		}
+	}
+	if len(keep) > 12 {
+		keep = keep[:12]
+	}
+	return strings.Join(keep, "\n")
 }
